@@ -11,7 +11,8 @@
 //!                               multi-variable declarations, `return` at any depth.  A separate
 //!                               stream, so that the `prog` / `pipe` stream (which C04 reuses) is
 //!                               unchanged.
-//!   (replay NAME)        search the two open findings of the extended language on the real compiler
+//!   (replay NAME)        search the two findings of the extended language (repaired by e098828 /
+//!                               e91a1bf) as regressions on the real compiler
 //!
 //! The reference typer (`RefTyper`) is written from the documented rules and shares no code with
 //! `truth` or with the Lean model's `check`; it is the executable counterpart of the Lean
@@ -315,6 +316,7 @@ struct RefTyper { regs: Vec<(i64, Option<T>)>, vars: Vec<(i64, Option<T>)>, cons
 #[derive(Copy, Clone, PartialEq, Eq, Debug)]
 enum Ill { Plain, Padding,
     /// `++` / `--` applied to a constant: the types are fine, but constants cannot be written to
+    /// (rejected since e098828; `typecheck-accepts-illtyped xcrement-of-constant` is the regression signature)
     ConstWrite }
 
 fn vt(c: &str) -> Option<T> { match c { "i" => Some(T::I), "f" => Some(T::F), "s" => Some(T::S), _ => None } }
@@ -1335,12 +1337,15 @@ fn gen_program_ext(rng: &mut Rng, tame: bool, depth: u32) -> (Sexp, Vec<Sexp>) {
     (ctx, items)
 }
 
-/// The two open findings of the extended language, on the real compiler (full `compile` of a
-/// source text, in the game where the defect shows):
-/// * `xcrement-const`: `--c` on a constant is accepted by the type checker (an assignment to it is
-///   rejected since 0757655) and lowering panics (TH08 ANM has the count jump `if (--x > 0) goto`);
+/// The two findings of the extended language (both repaired), as regressions on the real compiler
+/// (full `compile` of a source text, in the game where the defect showed); each must end in a
+/// file or a diagnostic:
+/// * `xcrement-const`: `--c` on a constant was accepted by the type checker (an assignment to it is
+///   rejected since 0757655) and lowering panicked (TH08 ANM has the count jump `if (--x > 0) goto`);
+///   since e098828 `cannot assign to a constant`;
 /// * `string-enum-const`: `EclSubName.foo` (the built-in string enum of TH10+ ECL sub names):
-///   `check_expr` answers string, `compute_ty` int; the `debug_assert_eq!` of `check_expr` fires.
+///   `check_expr` answered string, `compute_ty` int, the `debug_assert_eq!` of `check_expr` fired;
+///   since e91a1bf both answer string.
 fn eval_replay(name: &str) -> Sexp {
     let entry8 = ENTRY;
     let (format, game, maps, text): (crate::tc::Format, truth::Game, Vec<String>, String) = match name {
@@ -1380,10 +1385,10 @@ impl Prop for C09 {
         "prog / xprog: Ok / Err(first diagnostic class) of passes::type_check::run on the parsed, resolved script file == Lean `checkStmts codeCfg` (model of Visitor::visit_stmt incl. which statement kinds it walks); expr / xexpr: Ok(compute_ty) / Err class == Lean `check`; every result is also judged against an independent reference typer written from the documented rules (executable counterpart of Lean `HasType` / `WellTypedStmts` / `WritesOk`); x* = the extended language (difficulty switches, ++ / --, enum constants, label properties, pseudo-arguments, user-defined functions with parameters, multi-variable declarations, return at any depth)"
     }
     fn rule(&self) -> &'static str {
-        "type-directed random programs (global consts, inline functions with return, scripts; assignments and compound assignments, declarations with/without initialiser incl. untyped `var`, const declarations, instruction calls against 8 signatures incl. padding and string parameters, if / else-if / else, while, do-while, loop, times with and without clobber, conditional goto/break, interrupt and time labels, free blocks nested up to depth 4) and ALL their single-point mutations: every expression node at every depth (literal, operand, variable, sigil, cast, operator, argument, arity, opcode), every assignment/clobber target, every assignment operator, every return, every declared type; plus standalone expressions with their mutations; a second stream of the same shape over the extended language: every expression position may hold a difficulty switch (blank cases), ++ / --, a qualified or bare enum constant, offsetof / timeof, a call of a user-defined function; calls with @mask / @pop / @arg0 / @nargs / @blob; 1-3 functions with int / float / var parameters (inline, const, exported) per file, multi-variable declarations and const items, return at every depth, label expressions that are switches / enum constants; additional mutations: one switch case to another type, blank cases added / removed, ++ / -- operand to a float / untyped / constant variable, pseudo-argument kind / value type / blob next to arguments / on a user function, user-call arity and argument types, parameter types, function return types; the two open findings replayed on the real compiler (TH08 ANM, TH10 ECL); non-trivial = mutated program or nesting depth >= 2; distinct by case text"
+        "type-directed random programs (global consts, inline functions with return, scripts; assignments and compound assignments, declarations with/without initialiser incl. untyped `var`, const declarations, instruction calls against 8 signatures incl. padding and string parameters, if / else-if / else, while, do-while, loop, times with and without clobber, conditional goto/break, interrupt and time labels, free blocks nested up to depth 4) and ALL their single-point mutations: every expression node at every depth (literal, operand, variable, sigil, cast, operator, argument, arity, opcode), every assignment/clobber target, every assignment operator, every return, every declared type; plus standalone expressions with their mutations; a second stream of the same shape over the extended language: every expression position may hold a difficulty switch (blank cases), ++ / --, a qualified or bare enum constant, offsetof / timeof, a call of a user-defined function; calls with @mask / @pop / @arg0 / @nargs / @blob; 1-3 functions with int / float / var parameters (inline, const, exported) per file, multi-variable declarations and const items, return at every depth, label expressions that are switches / enum constants; additional mutations: one switch case to another type, blank cases added / removed, ++ / -- operand to a float / untyped / constant variable, pseudo-argument kind / value type / blob next to arguments / on a user function, user-call arity and argument types, parameter types, function return types; the two repaired findings (e098828, e91a1bf) replayed on the real compiler (TH08 ANM, TH10 ECL); non-trivial = mutated program or nesting depth >= 2; distinct by case text"
     }
     fn theorems(&self) -> &'static [&'static str] {
-        &["TruthModel.C09.check_sound", "TruthModel.C09.check_complete", "TruthModel.C09.computeTy_agrees", "TruthModel.C09.stmts_accept_iff_welltyped", "TruthModel.C09.stmts_accept_iff_welltyped_for_cfg", "TruthModel.C09.stmts_accept_iff_welltyped_status", "TruthModel.C09.type_preservation", "TruthModel.C09.computeTy_agrees_status", "TruthModel.C09.check_rejects_const_xcrement_status", "TruthModel.C09.decls_eq_sequence", "TruthModel.C09.return_checked_at_every_depth"]
+        &["TruthModel.C09.check_sound", "TruthModel.C09.check_complete", "TruthModel.C09.computeTy_agrees", "TruthModel.C09.stmts_accept_iff_welltyped", "TruthModel.C09.stmts_accept_iff_welltyped_for_cfg", "TruthModel.C09.stmts_accept_iff_welltyped_status", "TruthModel.C09.type_preservation", "TruthModel.C09.computeTy_agrees_status", "TruthModel.C09.check_rejects_const_xcrement", "TruthModel.C09.check_rejects_const_xcrement_status", "TruthModel.C09.xcrement_const_rejected", "TruthModel.C09.decls_eq_sequence", "TruthModel.C09.return_checked_at_every_depth"]
     }
 
     fn gen(&self, tier: Tier, rng: &mut Rng) -> Vec<Case> {
@@ -1467,7 +1472,7 @@ impl Prop for C09 {
                 out.push(Case::corr(app("xexpr", vec![mctx, me])).tag(format!("xexpr-{}", tag.split('@').next().unwrap_or("mut"))));
             }
         }
-        // (g) the open findings, on the real compiler
+        // (g) the two repaired findings, on the real compiler
         for name in ["xcrement-const", "xcrement-local", "string-enum-const", "string-enum-bare"] {
             out.push(Case::search(app("replay", vec![atom(name)])).tag(format!("replay-{name}")));
         }
